@@ -166,4 +166,8 @@ class Application:
             return web.Response()
         else:
             response_text, error_codes = response
-            return web.json_response(status=self._status_by_error(error_codes), text=response_text)
+            return web.json_response(
+                status=self._status_by_error(error_codes),
+                text=response_text,
+                content_type=pjrpc.common.DEFAULT_CONTENT_TYPE,
+            )
